@@ -47,12 +47,25 @@ package migrate
 //@ extern func (f File) Desc() (s string)
 //@   pure
 //@ extern func (l Logger) Log(en LogEntry)
+//@ ghost var GvcHData GvcArr[hash.Hash, string]
+//@ spec func specSha(data string) string { panic("uninterpreted") }
+//@ spec func specB64(raw string) string { panic("uninterpreted") }
+//@ func specSha(data string) (s string)
+//@   trusted
+//@   pure
+//@ func specB64(raw string) (s string)
+//@   trusted
+//@   pure
 //@ extern func (h hash.Hash) Write(p []byte) (n int, err error)
+//@   effect GvcHData = GvcAset(GvcHData, h, GvcAget(GvcHData, h)+string(p))
 //@   ensures err == nil
 //@ extern func (h hash.Hash) Sum(b []byte) (r []byte)
+//@   ensures b == nil ==> string(r) == specSha(GvcAget(GvcHData, h))
 //@ extern func sha256.New() (h hash.Hash)
+//@   effect GvcHData = GvcAset(GvcHData, h, "")
 //@   ensures h != nil
 //@ extern func (enc *base64.Encoding) EncodeToString(src []byte) (s string)
+//@   ensures s == specB64(string(src))
 
 //@ extern func (q schema.ExecQuerier) ExecContext(ctx context.Context, query string, args ...any) (res sql.Result, err error)
 //@   effect if err == nil { GvcExec = GvcPush(GvcExec, query) }
@@ -77,7 +90,7 @@ package migrate
 //@ func (e *Executor) Execute(ctx context.Context, m File) (err error)
 //@   requires e != nil && m != nil && e.dir != nil && e.rrw != nil && e.log != nil && e.drv != nil
 //@   requires GvcExec.N >= 0
-//@   modifies struct(Revision), heap(E_string), GvcExec, GvcStore, GvcWrites
+//@   modifies struct(Revision), heap(E_string), GvcExec, GvcStore, GvcWrites, GvcHData, GvcChecksumErr, GvcChecksumCalls, GvcChecksumAt, GvcComputedSum
 //@   ensures trace-prefix-kept: GvcExec.N >= old(GvcExec.N) &&
 //@           (forall j int :: 0 <= j && j < old(GvcExec.N) ==> GvcAt(GvcExec, j) == old[string](GvcAt(GvcExec, j)))
 //@   ensures in-order-once: gvcK0(old(gvcHas(m.Version())), old(gvcRev(m.Version()))) + GvcExec.N - old(GvcExec.N) <= len(gvcStmts(e, m)) || GvcExec.N == old(GvcExec.N)
@@ -312,3 +325,48 @@ package migrate
 //@   requires p != nil && p.dir != nil && p.fmt != nil
 //@   modifies GvcDirWrites, GvcLastWrite, GvcLastData, GvcChecksumAt, GvcComputedSum, GvcChecksumErr, GvcChecksumCalls
 //@   ensures rehash-after-all-writes: err == nil && p.sum ==> gvcSumWritten(p.dir)
+
+// NewHashFile computes H(files): one entry per file without the atlas:sum ignore directive,
+// named after the file, carrying base64(sha256(everything hashed so far)).
+//@ func directive(content, name string, prefix ...string) (arg string, ok bool)
+//@   trusted
+//@   pure
+//@ spec func GvcSumIgnored(f File) bool {
+//@ spec 	mode, ok := directive(string(f.Bytes()), directiveSum)
+//@ spec 	return ok && mode == sumModeIgnore
+//@ spec }
+//@ rec GvcCum
+//@ spec func GvcCum(files []File, n int) string {
+//@ spec 	if n <= 0 {
+//@ spec 		return ""
+//@ spec 	}
+//@ spec 	if GvcSumIgnored(files[n-1]) {
+//@ spec 		return GvcCum(files, n-1) + files[n-1].Name()
+//@ spec 	}
+//@ spec 	return GvcCum(files, n-1) + files[n-1].Name() + string(files[n-1].Bytes())
+//@ spec }
+//@ rec GvcCntH
+//@ spec func GvcCntH(files []File, n int) int {
+//@ spec 	if n <= 0 {
+//@ spec 		return 0
+//@ spec 	}
+//@ spec 	if GvcSumIgnored(files[n-1]) {
+//@ spec 		return GvcCntH(files, n-1)
+//@ spec 	}
+//@ spec 	return GvcCntH(files, n-1) + 1
+//@ spec }
+
+//@ func NewHashFile(files []File) (hs HashFile, err error)
+//@   requires (forall i int :: 0 <= i && i < len(files) ==> files[i] != nil)
+//@   modifies GvcHData
+//@   ensures never-fails: err == nil
+//@   ensures one-entry-per-hashed-file: len(hs) == old(GvcCntH(files, len(files)))
+//@   ensures entry-names: (forall i int :: 0 <= i && i < len(files) && !old(GvcSumIgnored(files[i])) ==>
+//@           0 <= old(GvcCntH(files, i)) && old(GvcCntH(files, i)) < len(hs) &&
+//@           hs[old(GvcCntH(files, i))].N == old(files[i].Name()))
+//@   loop 1 freshwrites
+//@   loop 1 invariant 0 <= loopk && loopk <= len(files) && len(hs) == old(GvcCntH(files, loopk)) && (hs == nil || GvcLoopFresh(hs))
+//@   loop 1 invariant (forall i int :: 0 <= i && i < loopk && !old(GvcSumIgnored(files[i])) ==>
+//@           0 <= old(GvcCntH(files, i)) && old(GvcCntH(files, i)) < len(hs))
+//@   loop 1 invariant (forall i int :: 0 <= i && i < loopk && !old(GvcSumIgnored(files[i])) ==>
+//@           hs[old(GvcCntH(files, i))].N == old(files[i].Name()))
